@@ -114,7 +114,16 @@ func fullRequest(addr, mode string, h hdr, id string, origin *lib.Origin, r *lib
 		tc.Write([]byte(req))
 		st = lib.NewStream(tc)
 	} else {
-		lib.WriteSeg(c, r.Split(append(append([]byte(nil), h.raw...), req...)), 200*time.Microsecond)
+		payload := append(append([]byte(nil), h.raw...), req...)
+		if h.fin {
+			// a header cut short is only malformed if nothing follows it (the first bytes of a
+			// request would complete a binary header): send it alone and half-close
+			payload = h.raw
+		}
+		lib.WriteSeg(c, r.Split(payload), 200*time.Microsecond)
+		if h.fin {
+			lib.CloseWrite(c)
+		}
 		st = lib.NewStream(c)
 	}
 	res, pst, _ := st.ReadResponse("GET", 8*time.Second)
